@@ -12,6 +12,8 @@ pub mod c12;
 #[cfg(kani)]
 pub mod c14;
 #[cfg(kani)]
+pub mod c15;
+#[cfg(kani)]
 pub mod c19;
 #[cfg(kani)]
 mod playback_gen;
